@@ -48,7 +48,7 @@ SPECS = [
          note="cut: the response length check after `send_cmd_recv_rsp`"),
 
     # ---- phase 2: cuts by sub-expression (`expr=`) and nested statements
-    Spec(GROUP, "t1_uid", T1, "Type1Tag.__init__", [], binds=[("target.rid_res", "rid_res", BYTES)], expr="target.rid_res[2:6]",
+    Spec(GROUP, "t1_uid", T1, "Type1Tag.__init__", [], binds=[("target.rid_res", "rid_res", BYTES)], whole=True, expr="target.rid_res[2:6]",
          note="cut: the UID echo taken from RID_RES"),
     Spec(GROUP, "t1_write_byte_cmd", T1, "Type1Tag.write_byte", [("addr", INT), ("data", INT), ("erase", BOOL)], binds=_UID,
          stmts=(0, 4), result=["cmd"], note="cut: address check and the WRITE-E / WRITE-NE command"),
@@ -57,45 +57,50 @@ SPECS = [
     Spec(GROUP, "t1_write_block_rsp", T1, "Type1Tag.write_block", [("rsp", BYTES), ("data", BYTES), ("erase", BOOL)], stmts=(5, 7),
          note="cut: the statements after `rsp = self.transceive(cmd)`"),
     Spec(GROUP, "t1_unit_size", T1, "Type1Tag.NDEF._write_ndef_data", [("hr0", INT)],
-         expr="8 if (hr0 >> 4 == 1 and hr0 & 0x0F != 1) else 1", note="cut: write unit of the tag (8-byte blocks on dynamic memory tags)"),
-    Spec(GROUP, "t1_dynamic", T1, "Type1TagMemoryReader._write_to_tag", [("hr0", INT)], expr="hr0 >> 4 == 1 and hr0 & 0x0F != 1",
+         whole=True, expr="8 if (hr0 >> 4 == 1 and hr0 & 0x0F != 1) else 1", note="cut: write unit of the tag (8-byte blocks on dynamic memory tags)"),
+    Spec(GROUP, "t1_dynamic", T1, "Type1TagMemoryReader._write_to_tag", [("hr0", INT)], whole=True, expr="hr0 >> 4 == 1 and hr0 & 0x0F != 1",
          note="cut: the test that selects WRITE-E8 (blocks) instead of WRITE-E (bytes) in `synchronize()`"),
     Spec(GROUP, "t1_block_of", T1, "Type1TagMemoryReader._write_to_tag", [("i", INT)], expr="i//8",
-         note="cut: block number of byte address `i` in the WRITE-E8 call"),
+         note="partial cut (not `whole`): first argument of the effectful call `self._tag.write_block(..)`; cut: block number of byte address `i` in the WRITE-E8 call"),
     Spec(GROUP, "t1_segment_of", T1, "Type1TagMemoryReader._read_from_tag", [], binds=[("len(self)", "n", INT)], expr="len(self) >> 7",
-         note="cut: segment number of the RSEG call; `len(self)` is the number of bytes read so far"),
+         note="partial cut (not `whole`): the argument of the effectful call `self._tag.read_segment(..)`; cut: segment number of the RSEG call; `len(self)` is the number of bytes read so far"),
     Spec(GROUP, "t1_area_end", T1, "Type1Tag.NDEF._read_ndef_data", [], binds=[("tag_memory[10]", "sz", INT)],
-         expr="(tag_memory[10] + 1) * 8", note="cut: tag memory size from CC byte 2"),
-    Spec(GROUP, "t1_cc_magic", T1, "Type1Tag.NDEF._read_ndef_data", [], binds=[("tag_memory[8]", "b8", INT)], expr="tag_memory[8] != 0xE1"),
-    Spec(GROUP, "t1_cc_version", T1, "Type1Tag.NDEF._read_ndef_data", [], binds=[("tag_memory[9]", "b9", INT)], expr="tag_memory[9] >> 4 != 1"),
-    Spec(GROUP, "t1_cc_readable", T1, "Type1Tag.NDEF._read_ndef_data", [], binds=[("tag_memory[11]", "b11", INT)], expr="bool(tag_memory[11] >> 4 == 0)"),
-    Spec(GROUP, "t1_cc_writeable", T1, "Type1Tag.NDEF._read_ndef_data", [], binds=[("tag_memory[11]", "b11", INT)], expr="bool(tag_memory[11] & 0xF == 0)"),
-    Spec(GROUP, "t1_skip_end", T1, "Type1Tag.NDEF._read_ndef_data", [("tag_memory_size", INT)], expr="120 if tag_memory_size == 120 else 128",
+         whole=True, expr="(tag_memory[10] + 1) * 8", note="cut: tag memory size from CC byte 2"),
+    Spec(GROUP, "t1_cc_magic", T1, "Type1Tag.NDEF._read_ndef_data", [], binds=[("tag_memory[8]", "b8", INT)], whole=True, expr="tag_memory[8] != 0xE1"),
+    Spec(GROUP, "t1_cc_version", T1, "Type1Tag.NDEF._read_ndef_data", [], binds=[("tag_memory[9]", "b9", INT)], whole=True, expr="tag_memory[9] >> 4 != 1"),
+    Spec(GROUP, "t1_cc_readable", T1, "Type1Tag.NDEF._read_ndef_data", [], binds=[("tag_memory[11]", "b11", INT)], whole=True, expr="bool(tag_memory[11] >> 4 == 0)"),
+    Spec(GROUP, "t1_cc_writeable", T1, "Type1Tag.NDEF._read_ndef_data", [], binds=[("tag_memory[11]", "b11", INT)], whole=True, expr="bool(tag_memory[11] & 0xF == 0)"),
+    Spec(GROUP, "t1_skip_end", T1, "Type1Tag.NDEF._read_ndef_data", [("tag_memory_size", INT)], whole=True, expr="120 if tag_memory_size == 120 else 128",
          note="cut: end of the static reserved range 104.."),
-    Spec(GROUP, "t1_next_tlv", T1, "Type1Tag.NDEF._read_ndef_data", [("tlv_l", INT)], expr="tlv_l + 1 + (1 if tlv_l < 255 else 3)",
+    Spec(GROUP, "t1_next_tlv", T1, "Type1Tag.NDEF._read_ndef_data", [("tlv_l", INT)], whole=True, expr="tlv_l + 1 + (1 if tlv_l < 255 else 3)",
          note="cut: distance to the next TLV"),
     Spec(GROUP, "t2_read_cmd", T2, "Type2Tag.read", [("page", INT)], expr="bytearray([0x30, page % 256])",
-         note="cut: the READ command handed to `self.transceive`"),
-    Spec(GROUP, "t2_is_nak", T2, "Type2Tag.read", [("data", BYTES)], expr="len(data) == 1 and data[0] & 0xFA == 0x00",
+         note="partial cut (not `whole`): the complete first argument of `self.transceive(..)`; cut: the READ command handed to `self.transceive`"),
+    Spec(GROUP, "t2_is_nak", T2, "Type2Tag.read", [("data", BYTES)], whole=True, expr="len(data) == 1 and data[0] & 0xFA == 0x00",
          note="cut: NAK recognition (the branch re-senses the tag)"),
     Spec(GROUP, "t2_write_cmd", T2, "Type2Tag.write", [("page", INT), ("data", BYTES)], expr="bytearray([0xA2, page % 256]) + data",
-         note="cut: the WRITE command handed to `self.transceive`"),
-    Spec(GROUP, "t2_sector_select_2", T2, "Type2Tag.sector_select", [("sector", INT)], expr="pack('Bxxx', sector)",
+         note="partial cut (not `whole`): the complete argument of `self.transceive(..)`; cut: the WRITE command handed to `self.transceive`"),
+    Spec(GROUP, "t2_sector_select_2", T2, "Type2Tag.sector_select", [("sector", INT)], whole=True, expr="pack('Bxxx', sector)",
          note="cut: SECTOR SELECT packet 2"),
-    Spec(GROUP, "t2_sector_ack", T2, "Type2Tag.sector_select", [("rsp", BYTES)], expr="len(rsp) == 1 and rsp[0] == 0x0A",
+    Spec(GROUP, "t2_sector_ack", T2, "Type2Tag.sector_select", [("rsp", BYTES)], whole=True, expr="len(rsp) == 1 and rsp[0] == 0x0A",
          note="cut: ACK recognition after SECTOR SELECT packet 1"),
-    Spec(GROUP, "t2_sector_of", T2, "Type2TagMemoryReader._read_from_tag", [("index", INT)], expr="index >> 10"),
-    Spec(GROUP, "t2_page_of", T2, "Type2TagMemoryReader._read_from_tag", [("index", INT)], expr="index >> 2"),
-    Spec(GROUP, "t2_read_start", T2, "Type2TagMemoryReader._read_from_tag", [], binds=[("len(self)", "n", INT)], expr="(len(self) >> 4) << 4",
+    Spec(GROUP, "t2_sector_of", T2, "Type2TagMemoryReader._read_from_tag", [("index", INT)], expr="index >> 10",
+         note="partial cut (not `whole`): the argument of the effectful call `self._tag.sector_select(..)`"),
+    Spec(GROUP, "t2_page_of", T2, "Type2TagMemoryReader._read_from_tag", [("index", INT)], expr="index >> 2",
+         note="partial cut (not `whole`): the argument of the effectful call `self._tag.read(..)`"),
+    Spec(GROUP, "t2_read_start", T2, "Type2TagMemoryReader._read_from_tag", [], binds=[("len(self)", "n", INT)], whole=True, expr="(len(self) >> 4) << 4",
          note="cut: first byte address fetched by `_read_from_tag`; `len(self)` is the number of bytes read so far"),
-    Spec(GROUP, "t2_area_end", T2, "Type2Tag.NDEF._write_ndef_data", [], binds=[("tag_memory[14]", "sz", INT)], expr="tag_memory[14] * 8 + 16"),
-    Spec(GROUP, "t2_cc_magic", T2, "Type2Tag.NDEF._read_capability_data", [], binds=[("tag_memory[12]", "b12", INT)], expr="tag_memory[12] != 0xE1"),
-    Spec(GROUP, "t2_cc_version", T2, "Type2Tag.NDEF._read_capability_data", [], binds=[("tag_memory[13]", "b13", INT)], expr="tag_memory[13] >> 4 != 1"),
-    Spec(GROUP, "t2_cc_readable", T2, "Type2Tag.NDEF._read_capability_data", [], binds=[("tag_memory[15]", "b15", INT)], expr="bool(tag_memory[15] >> 4 == 0)"),
-    Spec(GROUP, "t2_cc_writeable", T2, "Type2Tag.NDEF._read_capability_data", [], binds=[("tag_memory[15]", "b15", INT)], expr="bool(tag_memory[15] & 0xF == 0)"),
-    Spec(GROUP, "t2_next_tlv", T2, "Type2Tag.NDEF._read_ndef_data", [("tlv_l", INT)], expr="tlv_l + 1 + (1 if tlv_l < 255 else 3)"),
+    Spec(GROUP, "t2_area_end", T2, "Type2Tag.NDEF._write_ndef_data", [], binds=[("tag_memory[14]", "sz", INT)], expr="tag_memory[14] * 8 + 16",
+         note="partial cut (not `whole`): right operand of the terminator test; the complete test is t2_term_cond and the whole statement is in t2_term"),
+    Spec(GROUP, "t2_term_cond", T2, "Type2Tag.NDEF._write_ndef_data", [("offset", INT)], binds=[("tag_memory[14]", "sz", INT)],
+         whole=True, expr="offset < tag_memory[14] * 8 + 16", note="cut: the complete test that decides whether a terminator TLV is written"),
+    Spec(GROUP, "t2_cc_magic", T2, "Type2Tag.NDEF._read_capability_data", [], binds=[("tag_memory[12]", "b12", INT)], whole=True, expr="tag_memory[12] != 0xE1"),
+    Spec(GROUP, "t2_cc_version", T2, "Type2Tag.NDEF._read_capability_data", [], binds=[("tag_memory[13]", "b13", INT)], whole=True, expr="tag_memory[13] >> 4 != 1"),
+    Spec(GROUP, "t2_cc_readable", T2, "Type2Tag.NDEF._read_capability_data", [], binds=[("tag_memory[15]", "b15", INT)], whole=True, expr="bool(tag_memory[15] >> 4 == 0)"),
+    Spec(GROUP, "t2_cc_writeable", T2, "Type2Tag.NDEF._read_capability_data", [], binds=[("tag_memory[15]", "b15", INT)], whole=True, expr="bool(tag_memory[15] & 0xF == 0)"),
+    Spec(GROUP, "t2_next_tlv", T2, "Type2Tag.NDEF._read_ndef_data", [("tlv_l", INT)], whole=True, expr="tlv_l + 1 + (1 if tlv_l < 255 else 3)"),
     Spec(GROUP, "t2_ndef_head", T2, "Type2Tag.NDEF._read_ndef_data", [("offset", INT)], binds=[("tag_memory[offset + 1]", "l0", INT)],
-         expr="offset + (4 if tag_memory[offset+1] == 0xFF else 2)", note="cut: first value byte of the NDEF TLV"),
+         whole=True, expr="offset + (4 if tag_memory[offset+1] == 0xFF else 2)", note="cut: first value byte of the NDEF TLV"),
     Spec(GROUP, "t3_block_code_pack", T3, "BlockCode.pack", [],
          binds=[("self.number", "number", INT), ("self.access", "access", INT), ("self.service", "service", INT)]),
     Spec(GROUP, "t3_check_rsp", T3, "Type3Tag.send_cmd_recv_rsp",
@@ -106,52 +111,53 @@ SPECS = [
     Spec(GROUP, "t3_read_rsp", T3, "Type3Tag.read_without_encryption", [("block_list", LIST(INT)), ("data", BYTES)], stmts=(5, 7),
          note="cut: the statements after `data = self.send_cmd_recv_rsp(..)`; only the length of `block_list` is used"),
     Spec(GROUP, "t3_rw_nsvc", T3, "Type3Tag.read_without_encryption", [("service_list", LIST(INT))], expr="bytearray([len(service_list)])",
-         note="cut: the service count octet of the command data (the joins of packed codes are comprehensions)"),
+         note="partial cut (not `whole`): first summand of the command data (the joins of packed codes are comprehensions over objects); cut: the service count octet of the command data (the joins of packed codes are comprehensions)"),
     Spec(GROUP, "t3_rw_nblk", T3, "Type3Tag.read_without_encryption", [("block_list", LIST(INT))], expr="bytearray([len(block_list)])",
-         note="cut: the block count octet of the command data"),
+         note="partial cut (not `whole`): a summand of the command data (the joins of packed codes are comprehensions over objects); cut: the block count octet of the command data"),
     Spec(GROUP, "t3_last_block", T3, "Type3Tag.NDEF._read_ndef_data", [], binds=[("attributes['ln']", "ln", INT)],
-         expr="1 + (attributes['ln'] + 15) // 16"),
-    Spec(GROUP, "t3_nbr", T3, "Type3Tag.NDEF._read_ndef_data", [], binds=[("attributes['nbr']", "nbr", INT)], expr="min(attributes['nbr'], 15)"),
+         whole=True, expr="1 + (attributes['ln'] + 15) // 16"),
+    Spec(GROUP, "t3_nbr", T3, "Type3Tag.NDEF._read_ndef_data", [], binds=[("attributes['nbr']", "nbr", INT)], whole=True, expr="min(attributes['nbr'], 15)"),
     Spec(GROUP, "t3_ln_too_big", T3, "Type3Tag.NDEF._read_ndef_data", [],
-         binds=[("attributes['ln']", "ln", INT), ("attributes['nmaxb']", "nmaxb", INT)], expr="attributes['ln'] > attributes['nmaxb'] * 16"),
+         binds=[("attributes['ln']", "ln", INT), ("attributes['nmaxb']", "nmaxb", INT)], whole=True, expr="attributes['ln'] > attributes['nmaxb'] * 16"),
     Spec(GROUP, "t3_chunk_end", T3, "Type3Tag.NDEF._read_ndef_data", [("i", INT), ("nbr", INT), ("last_block_number", INT)],
-         expr="min(i + nbr, last_block_number)"),
-    Spec(GROUP, "t3_pad", T3, "Type3Tag.NDEF._write_ndef_data", [("data", BYTES)], expr="data + bytearray(-len(data) % 16)",
+         whole=True, expr="min(i + nbr, last_block_number)"),
+    Spec(GROUP, "t3_pad", T3, "Type3Tag.NDEF._write_ndef_data", [("data", BYTES)], whole=True, expr="data + bytearray(-len(data) % 16)",
          note="cut: the message padded to whole blocks"),
-    Spec(GROUP, "t3_wr_last_block", T3, "Type3Tag.NDEF._write_ndef_data", [("data", BYTES)], expr="1 + (len(data) + 15) // 16"),
+    Spec(GROUP, "t3_wr_last_block", T3, "Type3Tag.NDEF._write_ndef_data", [("data", BYTES)], whole=True, expr="1 + (len(data) + 15) // 16"),
     Spec(GROUP, "t3_wr_chunk", T3, "Type3Tag.NDEF._write_ndef_data", [("data", BYTES), ("i", INT), ("last_block", INT)],
-         expr="data[(i-1)*16:(last_block-1)*16]"),
+         whole=True, expr="data[(i-1)*16:(last_block-1)*16]"),
     Spec(GROUP, "t3_sys", T3, "Type3Tag.__init__", [], binds=[("target.sensf_res", "sensf_res", BYTES)],
-         expr='unpack(">H", target.sensf_res[17:19])[0]', note="cut: system code from SENSF_RES (only evaluated when it has more than 17 octets)"),
+         whole=True, expr='unpack(">H", target.sensf_res[17:19])[0]', note="cut: system code from SENSF_RES (only evaluated when it has more than 17 octets)"),
     # ---- Type 1 memory reader: which commands fill the cache (`Adv.stageA`, `stageB`)
-    Spec(GROUP, "t1_need_rall", T1, "Type1TagMemoryReader._read_from_tag", [], binds=[("len(self)", "n", INT)], expr="len(self) < 120",
+    Spec(GROUP, "t1_need_rall", T1, "Type1TagMemoryReader._read_from_tag", [], binds=[("len(self)", "n", INT)], whole=True, expr="len(self) < 120",
          note="cut: RALL is sent while fewer than 120 bytes are cached"),
     Spec(GROUP, "t1_need_block15", T1, "Type1TagMemoryReader._read_from_tag", [("stop", INT)], binds=[("len(self)", "n", INT)],
-         expr="stop > 120 and len(self) < 128", note="cut: READ8 of block 15 (lock / reserved bytes 120..127)"),
+         whole=True, expr="stop > 120 and len(self) < 128", note="cut: READ8 of block 15 (lock / reserved bytes 120..127)"),
     Spec(GROUP, "t1_rall_short", T1, "Type1TagMemoryReader._read_from_tag", [("read_all_data_response", BYTES)],
-         expr="len(read_all_data_response) < 2"),
+         whole=True, expr="len(read_all_data_response) < 2"),
     Spec(GROUP, "t1_rall_hdr", T1, "Type1TagMemoryReader._read_from_tag", [("read_all_data_response", BYTES)],
-         expr="read_all_data_response[0:2]", note="cut: header ROM octets of the RALL answer"),
+         whole=True, expr="read_all_data_response[0:2]", note="cut: header ROM octets of the RALL answer"),
     Spec(GROUP, "t1_rall_mem", T1, "Type1TagMemoryReader._read_from_tag", [("read_all_data_response", BYTES)],
-         expr="read_all_data_response[2:]", note="cut: static memory octets of the RALL answer"),
+         whole=True, expr="read_all_data_response[2:]", note="cut: static memory octets of the RALL answer"),
     # ---- Type 2 `protect()`: lock control TLV fields and default dynamic lock bits (`Tlv.protWalk`, `defaultLocks`, `setLocks`)
     Spec(GROUP, "t2_lock_first", T2, "Type2Tag._protect", [("tlv_v", BYTES)], path=[(10, "body"), (3, "body")], stmts=[1, 2, 3, 4],
          result=["lock_byte_addr"], note="cut: first lock byte address from a Lock Control TLV value"),
-    Spec(GROUP, "t2_lock_bits", T2, "Type2Tag._protect", [("tlv_v", BYTES)], expr="tlv_v[1] if tlv_v[1] > 0 else 256",
+    Spec(GROUP, "t2_lock_bits", T2, "Type2Tag._protect", [("tlv_v", BYTES)], whole=True, expr="tlv_v[1] if tlv_v[1] > 0 else 256",
          note="cut: number of lock bits (0 means 256)"),
     Spec(GROUP, "t2_lock_default_cond", T2, "Type2Tag._protect", [], binds=[("tag_memory[14]", "sz", INT), ("len(lock_control)", "nlock", INT)],
-         expr="tag_memory[14] > 6 and len(lock_control) == 0", note="cut: a dynamic memory tag without Lock Control TLV"),
-    Spec(GROUP, "t2_lock_default_addr", T2, "Type2Tag._protect", [("data_area_size", INT)], expr="16 + data_area_size"),
-    Spec(GROUP, "t2_lock_default_bits", T2, "Type2Tag._protect", [("data_area_size", INT)], expr="(data_area_size - 48 + 7)//8"),
-    Spec(GROUP, "t2_lock_byte_size", T2, "Type2Tag._protect", [("lock_bits_size", INT)], expr="(lock_bits_size + 7) // 8"),
-    Spec(GROUP, "t2_lock_byte_index", T2, "Type2Tag._protect", [("lock_byte_addr", INT), ("i", INT)], nonneg=["i"], expr="lock_byte_addr+(i >> 3)"),
-    Spec(GROUP, "t2_lock_bit", T2, "Type2Tag._protect", [("i", INT)], nonneg=["i"], expr="1 << (i & 7)"),
+         whole=True, expr="tag_memory[14] > 6 and len(lock_control) == 0", note="cut: a dynamic memory tag without Lock Control TLV"),
+    Spec(GROUP, "t2_lock_default_addr", T2, "Type2Tag._protect", [("data_area_size", INT)], whole=True, expr="16 + data_area_size"),
+    Spec(GROUP, "t2_lock_default_bits", T2, "Type2Tag._protect", [("data_area_size", INT)], whole=True, expr="(data_area_size - 48 + 7)//8"),
+    Spec(GROUP, "t2_lock_byte_size", T2, "Type2Tag._protect", [("lock_bits_size", INT)], whole=True, expr="(lock_bits_size + 7) // 8"),
+    Spec(GROUP, "t2_lock_byte_index", T2, "Type2Tag._protect", [("lock_byte_addr", INT), ("i", INT)], nonneg=["i"], expr="lock_byte_addr+(i >> 3)",
+         note="partial cut (not `whole`): the index of an augmented item assignment (not translatable as a statement)"),
+    Spec(GROUP, "t2_lock_bit", T2, "Type2Tag._protect", [("i", INT)], nonneg=["i"], whole=True, expr="1 << (i & 7)"),
     # ---- NDEF writer: the 3-byte length field across write units (repair of the torn length field, C02)
-    Spec(GROUP, "t2_len_pages", T2, "Type2Tag.NDEF._write_ndef_data", [("offset", INT)], expr="[(offset + i) >> 2 for i in (1, 2, 3)]",
+    Spec(GROUP, "t2_len_pages", T2, "Type2Tag.NDEF._write_ndef_data", [("offset", INT)], whole=True, expr="[(offset + i) >> 2 for i in (1, 2, 3)]",
          note="cut: the pages that hold the three length octets"),
-    Spec(GROUP, "t2_len_split", T2, "Type2Tag.NDEF._write_ndef_data", [("page", LIST(INT))], expr="page[0] != page[1] and page[1] == page[2]",
+    Spec(GROUP, "t2_len_split", T2, "Type2Tag.NDEF._write_ndef_data", [("page", LIST(INT))], whole=True, expr="page[0] != page[1] and page[1] == page[2]",
          note="cut: `FF | hi lo` - the marker alone in the first page"),
-    Spec(GROUP, "t2_nlen", T2, "Type2Tag.NDEF._write_ndef_data", [("data", BYTES)], expr='bytearray(pack(">H", len(data)))',
+    Spec(GROUP, "t2_nlen", T2, "Type2Tag.NDEF._write_ndef_data", [("data", BYTES)], whole=True, expr='bytearray(pack(">H", len(data)))',
          note="cut: the two length octets of the long format"),
     # ---- NDEF reader: one TLV with its value collected around the reserved bytes (C08, C01)
     Spec(GROUP, "t2_read_tlv", T2, "read_tlv", [("memory", BYTES), ("offset", INT), ("skip_bytes", SET)], ret=TUP(INT, INT, OPT(BYTES)),
@@ -172,41 +178,43 @@ SPECS = [
          [("tag_memory", BYTES), ("skip_bytes", SET), ("offset", INT), ("data", BYTES)], stmts=[8, 9, 10], result=["tag_memory"],
          note="cut: terminator TLV placement; `tag_memory` is the cached memory image as a bytearray"),
     # ---- Type 3 Tag emulation (`Type3TagEmulation`, C07): parsing of the command and status / response framing
-    Spec(GROUP, "t3e_cmd_bad_len", T3, "Type3TagEmulation._process_command", [("cmd", BYTES)], expr="not cmd or len(cmd) != cmd[0]",
+    Spec(GROUP, "t3e_cmd_bad_len", T3, "Type3TagEmulation._process_command", [("cmd", BYTES)], whole=True, expr="not cmd or len(cmd) != cmd[0]",
          note="cut: the length test in front of the command dispatch"),
-    Spec(GROUP, "t3e_polling_rsp", T3, "Type3TagEmulation._process_command", [("rsp", BYTES)], expr="bytearray([2 + len(rsp), 0x01]) + rsp"),
+    Spec(GROUP, "t3e_polling_rsp", T3, "Type3TagEmulation._process_command", [("rsp", BYTES)], whole=True, expr="bytearray([2 + len(rsp), 0x01]) + rsp"),
     Spec(GROUP, "t3e_read_rsp", T3, "Type3TagEmulation._process_command", [("rsp", BYTES)], binds=_IDM,
-         expr="bytearray([10 + len(rsp), 0x07]) + self.idm + rsp", note="cut: the response frame of Read Without Encryption"),
+         whole=True, expr="bytearray([10 + len(rsp), 0x07]) + self.idm + rsp", note="cut: the response frame of Read Without Encryption"),
     Spec(GROUP, "t3e_write_rsp", T3, "Type3TagEmulation._process_command", [("rsp", BYTES)], binds=_IDM,
-         expr="bytearray([10 + len(rsp), 0x09]) + self.idm + rsp", note="cut: the response frame of Write Without Encryption"),
-    Spec(GROUP, "t3e_idm_match", T3, "Type3TagEmulation._process_command", [("cmd", BYTES)], binds=_IDM, expr="cmd[2:10] == self.idm"),
+         whole=True, expr="bytearray([10 + len(rsp), 0x09]) + self.idm + rsp", note="cut: the response frame of Write Without Encryption"),
+    Spec(GROUP, "t3e_idm_match", T3, "Type3TagEmulation._process_command", [("cmd", BYTES)], binds=_IDM, whole=True, expr="cmd[2:10] == self.idm"),
     Spec(GROUP, "t3e_polling", T3, "Type3TagEmulation.polling", [("cmd_data", BYTES)],
          binds=_IDM + [("self.pmm", "pmm", BYTES), ("self.sys", "sys", BYTES)]),
-    Spec(GROUP, "t3e_rd_service_code", T3, "Type3TagEmulation.read_without_encryption", [("cmd_data", BYTES)], expr="cmd_data[1] << 8 | cmd_data[0]",
+    Spec(GROUP, "t3e_rd_service_code", T3, "Type3TagEmulation.read_without_encryption", [("cmd_data", BYTES)], whole=True, expr="cmd_data[1] << 8 | cmd_data[0]",
          note="cut: little-endian service code at the head of the remaining command data"),
-    Spec(GROUP, "t3e_rd_block_number", T3, "Type3TagEmulation.read_without_encryption", [("cmd_data", BYTES)], expr="cmd_data[2] << 8 | cmd_data[1]",
+    Spec(GROUP, "t3e_rd_block_number", T3, "Type3TagEmulation.read_without_encryption", [("cmd_data", BYTES)], whole=True, expr="cmd_data[2] << 8 | cmd_data[1]",
          note="cut: block number of a 3-octet block list element"),
-    Spec(GROUP, "t3e_rd_service_index", T3, "Type3TagEmulation.read_without_encryption", [("cmd_data", BYTES)], expr="cmd_data[0] & 0x0F"),
-    Spec(GROUP, "t3e_rd_short_elem", T3, "Type3TagEmulation.read_without_encryption", [("cmd_data", BYTES)], expr="cmd_data[0] >= 128",
+    Spec(GROUP, "t3e_rd_service_index", T3, "Type3TagEmulation.read_without_encryption", [("cmd_data", BYTES)], expr="cmd_data[0] & 0x0F",
+         note="partial cut (not `whole`): the index into `service_list` (a list of lists, not translatable)"),
+    Spec(GROUP, "t3e_rd_short_elem", T3, "Type3TagEmulation.read_without_encryption", [("cmd_data", BYTES)], whole=True, expr="cmd_data[0] >= 128",
          note="cut: the length bit of a block list element"),
-    Spec(GROUP, "t3e_rd_status_a3", T3, "Type3TagEmulation.read_without_encryption", [("i", INT)], nonneg=["i"], expr="bytearray([1 << (i % 8), 0xA3])",
+    Spec(GROUP, "t3e_rd_status_a3", T3, "Type3TagEmulation.read_without_encryption", [("i", INT)], nonneg=["i"], whole=True, expr="bytearray([1 << (i % 8), 0xA3])",
          note="cut: status flags for an illegal service list index at block list position i (a loop index, >= 0)"),
-    Spec(GROUP, "t3e_rd_status_a2", T3, "Type3TagEmulation.read_without_encryption", [("i", INT)], nonneg=["i"], expr="bytearray([1 << (i % 8), 0xA2])",
+    Spec(GROUP, "t3e_rd_status_a2", T3, "Type3TagEmulation.read_without_encryption", [("i", INT)], nonneg=["i"], whole=True, expr="bytearray([1 << (i % 8), 0xA2])",
          note="cut: status flags for a block that cannot be accessed at block list position i"),
-    Spec(GROUP, "t3e_wr_service_code", T3, "Type3TagEmulation.write_without_encryption", [("cmd_data", BYTES)], expr="cmd_data[1] << 8 | cmd_data[0]",
+    Spec(GROUP, "t3e_wr_service_code", T3, "Type3TagEmulation.write_without_encryption", [("cmd_data", BYTES)], whole=True, expr="cmd_data[1] << 8 | cmd_data[0]",
          note="cut: little-endian service code at the head of the remaining command data"),
-    Spec(GROUP, "t3e_wr_block_number", T3, "Type3TagEmulation.write_without_encryption", [("cmd_data", BYTES)], expr="cmd_data[2] << 8 | cmd_data[1]",
+    Spec(GROUP, "t3e_wr_block_number", T3, "Type3TagEmulation.write_without_encryption", [("cmd_data", BYTES)], whole=True, expr="cmd_data[2] << 8 | cmd_data[1]",
          note="cut: block number of a 3-octet block list element"),
-    Spec(GROUP, "t3e_wr_service_index", T3, "Type3TagEmulation.write_without_encryption", [("cmd_data", BYTES)], expr="cmd_data[0] & 0x0F"),
-    Spec(GROUP, "t3e_wr_short_elem", T3, "Type3TagEmulation.write_without_encryption", [("cmd_data", BYTES)], expr="cmd_data[0] >= 128",
+    Spec(GROUP, "t3e_wr_service_index", T3, "Type3TagEmulation.write_without_encryption", [("cmd_data", BYTES)], expr="cmd_data[0] & 0x0F",
+         note="partial cut (not `whole`): the index into `service_list` (a list of lists, not translatable)"),
+    Spec(GROUP, "t3e_wr_short_elem", T3, "Type3TagEmulation.write_without_encryption", [("cmd_data", BYTES)], whole=True, expr="cmd_data[0] >= 128",
          note="cut: the length bit of a block list element"),
-    Spec(GROUP, "t3e_wr_status_a3", T3, "Type3TagEmulation.write_without_encryption", [("i", INT)], nonneg=["i"], expr="bytearray([1 << (i % 8), 0xA3])",
+    Spec(GROUP, "t3e_wr_status_a3", T3, "Type3TagEmulation.write_without_encryption", [("i", INT)], nonneg=["i"], whole=True, expr="bytearray([1 << (i % 8), 0xA3])",
          note="cut: status flags for an illegal service list index at block list position i (a loop index, >= 0)"),
-    Spec(GROUP, "t3e_wr_status_a2", T3, "Type3TagEmulation.write_without_encryption", [("i", INT)], nonneg=["i"], expr="bytearray([1 << (i % 8), 0xA2])",
+    Spec(GROUP, "t3e_wr_status_a2", T3, "Type3TagEmulation.write_without_encryption", [("i", INT)], nonneg=["i"], whole=True, expr="bytearray([1 << (i % 8), 0xA2])",
          note="cut: status flags for a block that cannot be accessed at block list position i"),
-    Spec(GROUP, "t3e_wr_data_len", T3, "Type3TagEmulation.write_without_encryption", [("block_data", BYTES)], expr="len(block_data) % 16 != 0"),
+    Spec(GROUP, "t3e_wr_data_len", T3, "Type3TagEmulation.write_without_encryption", [("block_data", BYTES)], whole=True, expr="len(block_data) % 16 != 0"),
     Spec(GROUP, "t3e_wr_block", T3, "Type3TagEmulation.write_without_encryption", [("block_data", BYTES), ("i", INT)], nonneg=["i"],
-         expr="block_data[i*16:(i+1)*16]", note="cut: the data of the i-th block"),
+         expr="block_data[i*16:(i+1)*16]", note="partial cut (not `whole`): an argument of the callback `write_func(..)`; cut: the data of the i-th block"),
     # ---- functions that needed int-list displays, slice assignment, tuples of different arity
     Spec(GROUP, "t1_read_block_cmd", T1, "Type1Tag.read_block", [("block", INT)], binds=_UID, stmts=(0, 3), result=["cmd"],
          note="cut: block number check and the READ8 command"),
@@ -220,7 +228,7 @@ SPECS = [
     Spec(GROUP, "t3_fmt_attr", T3, "Type3Tag._format", [("version", INT), ("nbr", INT), ("nbw", INT), ("nmaxb", INT)],
          stmts=[13, 14, 15, 16], result=["attribute_data"], note="cut: the attribute block written by `format()`"),
     Spec(GROUP, "t3_rd_csum", T3, "Type3Tag.NDEF._read_attribute_data", [("data", BYTES)],
-         expr='sum(data[0:14]) != unpack(">H", data[14:16])[0]', note="cut: checksum test of the attribute block"),
+         whole=True, expr='sum(data[0:14]) != unpack(">H", data[14:16])[0]', note="cut: checksum test of the attribute block"),
     Spec(GROUP, "t3_rd_attr", T3, "Type3Tag.NDEF._read_attribute_data", [("data", BYTES)], stmts=[2, 3, 4],
          result=["ver", "nbr", "nbw", "nmaxb", "writef", "rwflag", "length"], note="cut: the attribute fields"),
 ]
@@ -240,27 +248,28 @@ BRIDGE = {
         "t1_cc_writeable_bridge", "t1_skip_end_bridge", "t1_next_tlv_bridge", "t2_read_cmd_bridge",
         "t2_is_nak_bridge", "gen_read2", "t2_write_cmd_bridge", "t2_sector_select_2_bridge", "t2_sector_ack_bridge",
         "t2_sector_of_bridge", "t2_page_of_bridge", "gen_page_in_sector", "t2_read_start_bridge",
-        "t2_area_end_bridge", "t2_cc_magic_bridge", "t2_cc_version_bridge", "t2_cc_readable_bridge",
-        "t2_cc_writeable_bridge", "t2_next_tlv_bridge", "t2_ndef_head_bridge", "t3_block_code_pack_bridge",
-        "gen_block_code_model", "t3_check_rsp_bridge", "gen_check_rsp_model", "gen_check_rsp_auth",
-        "gen_check_rsp_safe", "t3_read_rsp_bridge", "t3_rw_nsvc_bridge", "t3_rw_nblk_bridge", "t3_last_block_bridge",
-        "t3_nbr_bridge", "t3_ln_too_big_bridge", "t3_chunk_end_bridge", "t3_wr_last_block_bridge", "t3_pad_bridge",
-        "t3_wr_chunk_bridge", "t3_sys_bridge", "t1_read_block_cmd_bridge", "t1_read_segment_cmd_bridge",
-        "gen_segLoop", "gen_stageB_cmd", "t3_polling_rsp_bridge", "gen_polling_parts", "t3_wr_attr_bridge",
-        "t3_fmt_attr_bridge", "t3_rd_attr_bridge", "t3_rd_csum_short", "t1_need_rall_bridge",
-        "t1_need_block15_bridge", "t1_rall_short_bridge", "t1_rall_hdr_bridge", "t1_rall_mem_bridge", "gen_stageA",
-        "gen_stageB_cond", "t2_lock_first_bridge", "t2_lock_bits_bridge", "t2_lock_default_cond_bridge",
-        "t2_lock_default_addr_bridge", "t2_lock_default_bits_bridge", "gen_defaultLocks", "t2_lock_byte_size_bridge",
-        "t2_lock_byte_index_bridge", "t2_lock_bit_bridge", "le16_at", "t3e_rd_service_code_bridge",
-        "t3e_wr_service_code_bridge", "t3e_rd_block_number_bridge", "t3e_wr_block_number_bridge",
-        "t3e_rd_service_index_bridge", "t3e_wr_service_index_bridge", "t3e_rd_short_elem_bridge",
-        "t3e_wr_short_elem_bridge", "t3e_status", "t3e_rd_status_a3_bridge", "t3e_rd_status_a2_bridge",
-        "t3e_wr_status_a3_bridge", "t3e_wr_status_a2_bridge", "gen_parseBlocks_step", "t3e_rsp_frame",
-        "t3e_read_rsp_bridge", "t3e_write_rsp_bridge", "t3e_polling_rsp_bridge", "t3e_polling_bridge",
-        "t3e_cmd_bad_len_bridge", "gen_cmd_len_model", "t3e_idm_match_bridge", "t3e_wr_data_len_bridge",
-        "t3e_wr_block_bridge", "gen_frame_eq_T3Emu", "gen_block_code_T3Emu", "t1_place_bridge", "t1_term_bridge",
-        "t2_term_bridge", "t2_place_bridge", "gen_t2_phase2", "t2_len_pages_bridge", "t2_len_split_bridge",
-        "gen_phase3a_split", "t2_nlen_bridge", "t2_read_tlv_bridge", "readTlvRef_ok", "gen_t1_phase2")],
+        "t2_area_end_bridge", "t2_term_cond_bridge", "t2_cc_magic_bridge", "t2_cc_version_bridge",
+        "t2_cc_readable_bridge", "t2_cc_writeable_bridge", "t2_next_tlv_bridge", "t2_ndef_head_bridge",
+        "t3_block_code_pack_bridge", "gen_block_code_model", "t3_check_rsp_bridge", "gen_check_rsp_model",
+        "gen_check_rsp_auth", "gen_check_rsp_safe", "t3_read_rsp_bridge", "t3_rw_nsvc_bridge", "t3_rw_nblk_bridge",
+        "t3_last_block_bridge", "t3_nbr_bridge", "t3_ln_too_big_bridge", "t3_chunk_end_bridge",
+        "t3_wr_last_block_bridge", "t3_pad_bridge", "t3_wr_chunk_bridge", "t3_sys_bridge",
+        "t1_read_block_cmd_bridge", "t1_read_segment_cmd_bridge", "gen_segLoop", "gen_stageB_cmd",
+        "t3_polling_rsp_bridge", "gen_polling_parts", "t3_wr_attr_bridge", "t3_fmt_attr_bridge", "t3_rd_attr_bridge",
+        "t3_rd_csum_short", "t1_need_rall_bridge", "t1_need_block15_bridge", "t1_rall_short_bridge",
+        "t1_rall_hdr_bridge", "t1_rall_mem_bridge", "gen_stageA", "gen_stageB_cond", "t2_lock_first_bridge",
+        "t2_lock_bits_bridge", "t2_lock_default_cond_bridge", "t2_lock_default_addr_bridge",
+        "t2_lock_default_bits_bridge", "gen_defaultLocks", "t2_lock_byte_size_bridge", "t2_lock_byte_index_bridge",
+        "t2_lock_bit_bridge", "le16_at", "t3e_rd_service_code_bridge", "t3e_wr_service_code_bridge",
+        "t3e_rd_block_number_bridge", "t3e_wr_block_number_bridge", "t3e_rd_service_index_bridge",
+        "t3e_wr_service_index_bridge", "t3e_rd_short_elem_bridge", "t3e_wr_short_elem_bridge", "t3e_status",
+        "t3e_rd_status_a3_bridge", "t3e_rd_status_a2_bridge", "t3e_wr_status_a3_bridge", "t3e_wr_status_a2_bridge",
+        "gen_parseBlocks_step", "t3e_rsp_frame", "t3e_read_rsp_bridge", "t3e_write_rsp_bridge",
+        "t3e_polling_rsp_bridge", "t3e_polling_bridge", "t3e_cmd_bad_len_bridge", "gen_cmd_len_model",
+        "t3e_idm_match_bridge", "t3e_wr_data_len_bridge", "t3e_wr_block_bridge", "gen_frame_eq_T3Emu",
+        "gen_block_code_T3Emu", "t1_place_bridge", "t1_term_bridge", "t2_term_bridge", "t2_place_bridge",
+        "gen_t2_phase2", "t2_len_pages_bridge", "t2_len_split_bridge", "gen_phase3a_split", "t2_nlen_bridge",
+        "t2_read_tlv_bridge", "readTlvRef_ok", "gen_t1_phase2")],
     "properties": ["C16", "C08", "C01", "C02", "C03", "C07"],
 }
 
@@ -433,6 +442,8 @@ def inputs(rng, sp):
                 c = sum(d[0:14])
                 d[14], d[15] = c >> 8, c & 255
             out.append(([bytes(d[:rng.choice([16, 16, 16, 15, 14, 11, 5, 0])])], []))
+    if n == "t2_term_cond":
+        out += [([o], [z]) for z in (0, 6, 18) for o in (15, 16, 17, 63, 64, 65, 159, 160, 161)]
     if n == "t2_read_tlv":
         for _ in range(150):
             size = rng.choice([48, 64, 96])
@@ -575,5 +586,11 @@ MUTATIONS = [
     ("t3e_read_rsp", "response code of read", "bytearray([10 + len(rsp), 0x07])", "bytearray([10 + len(rsp), 0x09])"),
     ("t3e_polling", "request code that appends the system code", "if cmd_data[2] == 1:", "if cmd_data[2] >= 1:"),
     ("t3e_cmd_bad_len", "length octet test", "len(cmd) != cmd[0]", "len(cmd) < cmd[0]"),
+    ("t2_is_nak", "condition gains an operand", "if len(data) == 1 and data[0] & 0xFA == 0x00:", "if len(data) == 1 and data[0] & 0xFA == 0x00 or len(data) == 2:"),
+    ("t1_need_block15", "condition gains an operand", "if stop > 120 and len(self) < 128:", "if stop > 120 and len(self) < 128 and stop < 512:"),
+    ("t3e_wr_data_len", "condition gains an operand", "if len(block_data) % 16 != 0:", "if len(block_data) % 16 != 0 and len(block_data) > 16:"),
+    ("t2_sector_ack", "truthiness test added", "if len(rsp) == 1 and rsp[0] == 0x0A:", "if rsp[0:1] and len(rsp) == 1 and rsp[0] == 0x0A:"),
+    ("t2_term_cond", "condition gains an operand", "if offset < tag_memory[14] * 8 + 16:", "if offset < tag_memory[14] * 8 + 16 or not skip_bytes:"),
+    ("t1_cc_magic", "condition gains an operand", "if tag_memory[8] != 0xE1:", "if tag_memory[8] != 0xE1 and tag_memory[8] != 0xE0:"),
     ("t3_check_rsp", "NEUTRAL log text", '"incorrect response length {0}"', '"bad response length {0}"'),
 ]
